@@ -38,7 +38,7 @@ def gen_cases(tier, seed):
             nodes = []
             for x in labs:
                 if light:
-                    nodes.append(["light", parents[x], rng.randint(0, 9)])
+                    nodes.append([rng.choice(["light", "lights"]), parents[x], rng.randint(0, 9)])
                 else:
                     nodes.append([rng.choice(["any", "node", "umix"]), parents[x], rng.randint(0, 9)])
             if not light:
